@@ -24,7 +24,7 @@ CHECKS = {
          "Trusts the reference encoder, the reference acceptor (its reading of the input bytes defines 'the input's instructions'), the hand-transcribed layout table (DESIGN §3.4) and the frozen grammar snapshot. Conditional on acceptance: a module the real loader rejects is skipped (C05 reports that).",
          SIM_TECH + "; faults = legal message reordering / padding corruption", "§5 C01"),
  "C03": ("fault_enumeration",
-         "Seeded producer modules over all 787 opcodes through 0-3 storage faults (truncation, bit flips, word/word-count/opcode/enumerant substitution, operand loss/insertion, unterminated strings, message loss/dup/reorder, garbage), judged against a table-driven reference acceptor run on the post-fault bytes: acceptance, delivered prefix, error class, instruction number, offset extent. One run in 25 ENUMERATES every truncation offset and every word-count/operand-drop/operand-extra variant of one instruction (the property's own quantifier). The rendered one-line message must name the same instruction number and offset as the error value. Hot spots: boundary ids (0, 2^31, u32::MAX), BOM / LF / invalid-UTF-8 strings, the magic number inside the stream, rare giant instructions/strings/type tables. Opcode faults 0 / last+1 / +-1 around declared opcodes, surplus payload on operand-less instructions, zero padding behind the module, dense 64-bit-typed ids with a consumer at every 2^k-1, 2^k, 2^k+1, header dictionaries (generator tool ids, version 0.99). One run in five applies one surplus word and one missing last word to EVERY instruction of the stream (light sweep); every byte order of the magic number.",
+         "Seeded producer modules over all 787 opcodes through 0-3 storage faults (truncation, bit flips, word/word-count/opcode/enumerant substitution, operand loss/insertion, unterminated strings, message loss/dup/reorder, garbage), judged against a table-driven reference acceptor run on the post-fault bytes: acceptance, delivered prefix, error class, instruction number, offset extent. One run in 25 ENUMERATES every truncation offset and every word-count/operand-drop/operand-extra variant of one instruction (the property's own quantifier). The rendered one-line message must name the same instruction number and offset as the error value. Hot spots: boundary ids (0, 2^31, u32::MAX), BOM / LF / invalid-UTF-8 strings, the magic number inside the stream, rare giant instructions/strings/type tables. Opcode faults 0 / last+1 / +-1 around declared opcodes, surplus payload on operand-less instructions, zero padding behind the module, dense 64-bit-typed ids with a consumer at every 2^k-1, 2^k, 2^k+1, header dictionaries (generator tool ids, version 0.99). One run in five applies one surplus word and one missing last word to EVERY instruction of the stream (light sweep); every byte order of the magic number. Sparse-id lane: thousands of type ids scattered over the 32-bit space, each consumed (collisions in lossy id maps); literal values special for the declared format; ids defined twice.",
          "Grammar = frozen snapshot of the pinned tree (Khronos JSON is not available offline); documented don't-cares (trailing 1-3 byte fragment, OpSpecConstantOp nesting optional/variadic operands, poisoned ids); an extent clipped by EOF may be reported as missing or surplus.",
          SIM_TECH + "; single-fault positions enumerated per seeded workload", "§5 C03"),
  "C04": ("fault_enumeration",
@@ -36,11 +36,11 @@ CHECKS = {
          "Layout classes and terminator set are a hand transcription of the SPIR-V logical layout limited to the classes the property names (vendor / context-dependent module-scope opcodes are outside the alphabet). OpLine in a function outside a block is not judged.",
          SIM_TECH + "; message-level faults on the instruction history", "§5 C05"),
  "C06": ("exploration",
-         "Seeded complete Builder histories over the WHOLE source-derived method table (1149 bound methods; build.rs re-derives the call table from /repo's sources on every build): every call's emitted instruction is compared with the intended grammar-order operand list, then module() -> assemble -> load_words must succeed and the loaded module must equal the built one section by section; version and bound checked. Quick tier calls every bound method >= 100 times. Conjunction hot spots through argument biasing (names, function/struct/constant ids, reserved explicit ids defined out of numeric order, repeated set_version) and rare scale ops (65 535-word instructions, 65k+ byte strings, 65k+ typed ids). Near-repeat lane (a request again, or with exactly one operand changed / toggled) and method-repeat post-pass; annotations aimed at the function being built; functions without a body; switches on 64-bit selectors; scale lane followed by functions that switch on the late 64-bit constant.",
+         "Seeded complete Builder histories over the WHOLE source-derived method table (1149 bound methods; build.rs re-derives the call table from /repo's sources on every build): every call's emitted instruction is compared with the intended grammar-order operand list, then module() -> assemble -> load_words must succeed and the loaded module must equal the built one section by section; version and bound checked. Quick tier calls every bound method >= 100 times. Conjunction hot spots through argument biasing (names, function/struct/constant ids, reserved explicit ids defined out of numeric order, repeated set_version) and rare scale ops (65 535-word instructions, 65k+ byte strings, 65k+ typed ids). Near-repeat lane (a request again, or with exactly one operand changed / toggled) and method-repeat post-pass; annotations aimed at the function being built; functions without a body; switches on 64-bit selectors; scale lane followed by functions that switch on the late 64-bit constant. Enumerant-pair sweep: pairs of execution modes / decorations on one id, half of them related by name (LocalSize / LocalSizeId, ...).",
          "Method<->opcode binding is by name (heck snake_case) plus a table for hand-written methods; arguments are kept grammar-conforming by construction (see evidence assumptions); 10 known findings (known_findings.json) are reported as KNOWN-FINDING lines.",
          SIM_TECH + "; refinement of recorded intent", "§5 C06"),
  "C10": ("exploration",
-         "Seeded histories of int/float declarations (supported and unsupported widths), value definitions carrying types through result types, and OpConstant/OpSpecConstant/OpSwitch consumers on declared/undeclared/forward-declared ids, judged against a reference type context; each history is also parsed under a schedule involving a conflicting second binary: after it, NESTED inside its k-th consumer callback (re-entrancy), it nested inside the history's parse, one consumer reused - results must equal the stand-alone parse; assembler word counts re-checked. Float declarations with the optional encoding operand, literals of all 363 distinct int/float types, 65k+ tracked ids before a 64-bit value / literal / switch. Value definitions by any value-defining opcode of the grammar with id operands from the history's typed ids; bystander instructions of any other kind in between (capabilities, extensions, functions, labels, ...); dense ids up to 66 000, all typed 64-bit, with a consumer at every 2^k-1, 2^k, 2^k+1. Ids defined by other instructions and near-miss ids (one bit away from a typed id) as result types and selectors; header bounds 0 / 1 / too small; annotations in front aimed at ids defined later.",
+         "Seeded histories of int/float declarations (supported and unsupported widths), value definitions carrying types through result types, and OpConstant/OpSpecConstant/OpSwitch consumers on declared/undeclared/forward-declared ids, judged against a reference type context; each history is also parsed under a schedule involving a conflicting second binary: after it, NESTED inside its k-th consumer callback (re-entrancy), it nested inside the history's parse, one consumer reused - results must equal the stand-alone parse; assembler word counts re-checked. Float declarations with the optional encoding operand, literals of all 363 distinct int/float types, 65k+ tracked ids before a 64-bit value / literal / switch. Value definitions by any value-defining opcode of the grammar with id operands from the history's typed ids; bystander instructions of any other kind in between (capabilities, extensions, functions, labels, ...); dense ids up to 66 000, all typed 64-bit, with a consumer at every 2^k-1, 2^k, 2^k+1. Ids defined by other instructions and near-miss ids (one bit away from a typed id) as result types and selectors; header bounds 0 / 1 / too small; annotations in front aimed at ids defined later. Sparse-id lane (thousands of scattered type ids, each consumed).",
          "Ids are defined once in the history under test; literal-truncation faults only.",
          SIM_TECH + "; schedules = order / nesting of two parses through the Consumer seam", "§5 C10"),
  "C11": ("exploration",
